@@ -277,34 +277,47 @@ func (t *Task) Delete(pg wpg.Conn, n uint64) error {
 
 func (t *Task) latestDependency(pg wpg.Conn) (uint64, []byte, error) {
 	const q = `
-		with latest as (
-			select distinct on (ig_name)
-			ig_name, num, hash
-			from shovel.task_updates
-			where src_name = $1
-			and ig_name = ANY($2)
-			order by ig_name, num desc
-		)
-		select num, hash
-		from latest
-		order by num asc
-		limit 1;
+		select distinct on (ig_name)
+		ig_name, num, hash
+		from shovel.task_updates
+		where src_name = $1
+		and ig_name = ANY($2)
+		order by ig_name, num desc
 	`
-	num, hash := uint64(0), []byte{}
-	err := pg.QueryRow(
-		t.ctx,
-		q,
-		t.srcName,
-		t.destConfig.Dependencies,
-	).Scan(&num, &hash)
-	switch {
-	case errors.Is(err, pgx.ErrNoRows):
-		return 0, nil, nil
-	case err != nil:
+	rows, err := pg.Query(t.ctx, q, t.srcName, t.destConfig.Dependencies)
+	if err != nil {
 		return 0, nil, err
-	default:
-		return num, hash, nil
 	}
+	defer rows.Close()
+	var (
+		found     = map[string]struct{}{}
+		num, hash = uint64(0), []byte{}
+	)
+	for rows.Next() {
+		var (
+			name string
+			n    uint64
+			h    []byte
+		)
+		if err := rows.Scan(&name, &n, &h); err != nil {
+			return 0, nil, err
+		}
+		if len(found) == 0 || n < num {
+			num, hash = n, h
+		}
+		found[name] = struct{}{}
+	}
+	if err := rows.Err(); err != nil {
+		return 0, nil, err
+	}
+	// every dependency must have recorded progress,
+	// not only the ones that already have
+	for _, name := range t.destConfig.Dependencies {
+		if _, ok := found[name]; !ok {
+			return 0, nil, nil
+		}
+	}
+	return num, hash, nil
 }
 
 func (t *Task) latest(ctx context.Context, pg wpg.Conn) (uint64, []byte, error) {
